@@ -376,6 +376,25 @@ def judge_session(r, password=False):
             reqs += 1
             if line == b"command_list_ok_begin":
                 in_list = True
+    # (c) notifications keep flowing: a delivery that completes a reply while the client idles (its last line is idle and
+    # nothing else is outstanding) must be answered by a new idle before the client rests again
+    cum = b""
+    last = None
+    lines_by_op2 = {}
+    for i, l in t.written_lines():
+        lines_by_op2.setdefault(i, []).append(l)
+    closed_at = min(t.flag("X") + t.flag("D") + [10 ** 9])
+    for i in range(len(t.ops)):
+        before = count_responses(cum)
+        for j, x in delivered:
+            if j == i:
+                cum += x
+        after = count_responses(cum)
+        new_lines = lines_by_op2.get(i, [])
+        if after > before and last == b"idle" and i < closed_at and b"idle" not in new_lines and not password:
+            out.append(f"an idle reply was delivered (operation {i}: {t.ops[i][:60]}) but the client did not issue idle again; it wrote {new_lines}")
+        if new_lines:
+            last = new_lines[-1]
     return out
 
 
